@@ -11,7 +11,7 @@
  *   H<tag>:<hexhdr> handler entered        I<ok>:<v|-> int reader        L<ok>:<bits|-> float/double reader
  *   B<ok>:<v|-> bool   C<ok>:<tag|-> choice   N<ok>:<special>:<tag>:<bits>:<unit>:<base> number
  *   Y<ok>:<off>:<hex> characters / block     X<ok>:<hex>:<nul> copied text     A<ok>:<v,v..> array
- *   G<tag>   U<ok>:<n,n..> command numbers   E<code> error callback   Z reset callback (*RST)
+ *   G<tag>   V<0|1> SCPI_IsCmd / SCPI_Match   U<ok>:<n,n..> command numbers   E<code> error callback   Z reset callback (*RST)
  *   Q<hex4> service request (control callback SCPI_CTRL_SRQ with this value), after W / F of the call
  *   W<hex> bytes written during the call   F<n> flushes   R<0|1> return value of the call
  *   at the end: D<code>:<hextext|N>,... queue drained with SCPI_ErrorPop   M<hex> unconsumed remainder
@@ -23,7 +23,7 @@
 
 #define MAXOPS 200
 #define MAXCMDS 40
-typedef struct { char name[4]; long long a[4]; unsigned long long u; unsigned char data[1300]; size_t dlen; int isnull; } op_t;
+typedef struct { char name[4]; long long a[4]; unsigned long long u; unsigned char data[1300]; size_t dlen; int isnull; unsigned char data2[200]; size_t dlen2; } op_t;
 typedef struct { char pattern[96]; int tag; op_t ops[MAXOPS]; int nops; } hcmd_t;
 typedef struct { hcmd_t cmds[MAXCMDS]; int n; scpi_command_t table[MAXCMDS + 1]; } table_t;
 
@@ -139,6 +139,12 @@ static scpi_result_t generic_handler(scpi_t *ctx) {
             for (k = 0; k < 8; k++) nums[k] = -777;
             r = SCPI_CommandNumbers(ctx, nums, (size_t) n, (int32_t) o->a[1]);
             fprintf(EV, " U%d:", r ? 1 : 0); if (!n) fprintf(EV, "-"); for (k = 0; k < n; k++) fprintf(EV, "%s%d", k ? "," : "", nums[k]);
+        } else if (!strcmp(o->name, "iC")) {            /* the pattern test of the matched entry on a header text */
+            o->data[o->dlen] = 0; fprintf(EV, " V%d", SCPI_IsCmd(ctx, (char *) o->data) ? 1 : 0);
+        } else if (!strcmp(o->name, "iM")) {            /* SCPI_Match(pattern, value, len): the value in an exact-size object, not NUL-terminated */
+            char *v = (char *) malloc(o->dlen2 ? o->dlen2 : 1); memcpy(v, o->data2, o->dlen2);
+            o->data[o->dlen] = 0; fprintf(EV, " V%d", SCPI_Match((char *) o->data, v, o->dlen2) ? 1 : 0);
+            free(v);
         } else if (!strcmp(o->name, "bI")) {
             /* the real handler; SCPI_RES_ERR ends the script with that result */
             int k;
@@ -169,7 +175,10 @@ static int parse_table(const char *txt, table_t *t) {
             while ((f = strtok_r(NULL, ",", &sf))) {
                 int hexarg = (!strcmp(op->name, "rT") || !strcmp(op->name, "rC") || !strcmp(op->name, "rK") || !strcmp(op->name, "rKD")) ||
                              (!strcmp(op->name, "rA") && k == 2) || (!strcmp(op->name, "eP") && k == 1);
-                if (!strcmp(op->name, "bI") && k == 0) { snprintf((char *) op->data, sizeof op->data, "%s", f); op->dlen = strlen(f); }
+                if (!strcmp(op->name, "iC") && k == 0) op->dlen = h_unhex(f, op->data, sizeof op->data - 1);
+                else if (!strcmp(op->name, "iM") && k == 0) op->dlen = h_unhex(f, op->data, sizeof op->data - 1);
+                else if (!strcmp(op->name, "iM") && k == 1) op->dlen2 = h_unhex(f, op->data2, sizeof op->data2);
+                else if (!strcmp(op->name, "bI") && k == 0) { snprintf((char *) op->data, sizeof op->data, "%s", f); op->dlen = strlen(f); }
                 else if (hexarg) { if (f[0] == 'N') op->isnull = 1; op->dlen = h_unhex(f, op->data, sizeof op->data - 1); }
                 else if ((!strcmp(op->name, "rI") && k == 2) || (!strcmp(op->name, "rF") && k == 1)) op->u = strtoull(f, NULL, 16);
                 else if (k < 4) op->a[k] = atoll(f);
@@ -353,8 +362,16 @@ void run_parse(const char *input) {
         fclose(EV); free(junk); EV = keep;
         seed_fresh(&e2, &e1, t, bufsize, qcap);
         fprintf(EV, " K"); ev_hex(e1.ctx.buffer.data, e1.ctx.buffer.position);     /* what A left unconsumed in the input buffer */
-        /* pending input of A (an unterminated tail) is part of the stream, not of the persistent state: drop it on both */
-        e1.ctx.buffer.position = 0;
+        /* pending input of A (an unterminated tail) is part of the stream: context 1 keeps it exactly as A's calls left it
+         * (with whatever stale bytes lie behind it), the fresh context receives the same bytes in a call of its own */
+        if (e1.ctx.buffer.position > 0) {
+            char *pend = (char *) malloc(e1.ctx.buffer.position);
+            memcpy(pend, e1.ctx.buffer.data, e1.ctx.buffer.position);
+            keep = EV; EV = open_memstream(&junk, &junklen);
+            SCPI_Input(&e2.ctx, pend, (int) e1.ctx.buffer.position);
+            fclose(EV); free(junk); EV = keep;
+            free(pend);
+        }
         e1.iface.error = cb_error_ev; e2.iface.error = cb_error_ev;
         for (i = 0; i < nb; i++) feed(&e1, chunksB[i]);
         finish(&e1);
